@@ -248,3 +248,70 @@ pub fn h_names() {
         Err(_) => sym::check("C13/known-name-accepted", want.is_none()),
     }
 }
+
+/// Published-style test vectors: digests of "" / "abc" / 'a' x {55, 56, 63, 64, 119, 128} (the block
+/// boundaries) computed with OpenSSL (python hashlib) when this harness was written -- an oracle
+/// independent of the RustCrypto crates the library uses.  (n = 3 stands for "abc".)
+pub const VECTORS: &[(usize, usize, &str)] = &[
+    (0, 0, "69217a3079908094e11121d042354a7c1f55b6482ca1a51e1b250dfd1ed0eef9"),
+    (1, 0, "d41d8cd98f00b204e9800998ecf8427e"),
+    (2, 0, "9c1185a5c5e9fc54612808977ee8f548b2258d31"),
+    (3, 0, "da39a3ee5e6b4b0d3255bfef95601890afd80709"),
+    (4, 0, "e3b0c44298fc1c149afbf4c8996fb92427ae41e4649b934ca495991b7852b855"),
+    (5, 0, "cf83e1357eefb8bdf1542850d66d8007d620e4050b5715dc83f4a921d36ce9ce47d0d13c5d85f2b0ff8318d2877eec2f63b931bd47417a81a538327af927da3e"),
+    (0, 3, "508c5e8c327c14e2e1a72ba34eeb452f37458b209ed63a294d999b4c86675982"),
+    (1, 3, "900150983cd24fb0d6963f7d28e17f72"),
+    (2, 3, "8eb208f7e05d987a9b044a8e98c6b087f15a0bfc"),
+    (3, 3, "a9993e364706816aba3e25717850c26c9cd0d89d"),
+    (4, 3, "ba7816bf8f01cfea414140de5dae2223b00361a396177a9cb410ff61f20015ad"),
+    (5, 3, "ddaf35a193617abacc417349ae20413112e6fa4e89a97ea20a9eeee64b55d39a2192992a274fc1a836ba3c23a3feebbd454d4423643ce80e2a9ac94fa54ca49f"),
+    (0, 55, "8265e9235687e0db03e94d2827d2c44f5bcb2c9a51e3cd3198078500bc58e5f1"),
+    (1, 55, "ef1772b6dff9a122358552954ad0df65"),
+    (2, 55, "0d8a8c9063a48576a7c97e9f95253a6e53ff6765"),
+    (3, 55, "c1c8bbdc22796e28c0e15163d20899b65621d65a"),
+    (4, 55, "9f4390f8d30c2dd92ec9f095b65e2b9ae9b0a925a5258e241c9f1e910f734318"),
+    (5, 55, "b0220c772cbf6c1822e2cb38a437d0e1d58772417a4bbb21c961364f8b6143e05aa6316dca8d1d7b19e16448419076395f6086cb55101fbd6d5497b148e1745f"),
+    (0, 56, "9d5b6436d9c8ae3b397f25afece0afe865b26748ae4986360bf2fd0ae0b28dd6"),
+    (1, 56, "3b0c8ac703f828b04c6c197006d17218"),
+    (2, 56, "e72334b46c83cc70bef979e15453706c95b888be"),
+    (3, 56, "c2db330f6083854c99d4b5bfb6e8f29f201be699"),
+    (4, 56, "b35439a4ac6f0948b6d6f9e3c6af0f5f590ce20f1bde7090ef7970686ec6738a"),
+    (5, 56, "962b64aae357d2a4fee3ded8b539bdc9d325081822b0bfc55583133aab44f18bafe11d72a7ae16c79ce2ba620ae2242d5144809161945f1367f41b3972e26e04"),
+    (0, 63, "9a4267618070af968ff2a0fdaecc62b5c15ab91cb4a56424ba9fcad20aab417c"),
+    (1, 63, "b06521f39153d618550606be297466d5"),
+    (2, 63, "e640041293fe663b9bf3f8c21ffecac03819e6b2"),
+    (3, 63, "03f09f5b158a7a8cdad920bddc29b81c18a551f5"),
+    (4, 63, "7d3e74a05d7db15bce4ad9ec0658ea98e3f06eeecf16b4c6fff2da457ddc2f34"),
+    (5, 63, "c1b0f5c6d3b03dfe4a2602e67242f54e344090b66e01100a469b129f583f016c7e27dddeaa438393dcc7ec54b0b57c9ba7af007f9b56db5f6fb677d972a31362"),
+    (0, 64, "651d2f5f20952eacaea2fba2f2af2bcd633e511ea2d2e4c9ae2ac0d9ffb7b252"),
+    (1, 64, "014842d480b571495a4a0363793f7367"),
+    (2, 64, "9dfb7d374ad924f3f88de96291c33e9abed53e32"),
+    (3, 64, "0098ba824b5c16427bd7a1122a5a442a25ec644d"),
+    (4, 64, "ffe054fe7ae0cb6dc65c3af9b61d5209f439851db43d0ba5997337df154668eb"),
+    (5, 64, "01d35c10c6c38c2dcf48f7eebb3235fb5ad74a65ec4cd016e2354c637a8fb49b695ef3c1d6f7ae4cd74d78cc9c9bcac9d4f23a73019998a7f73038a5c9b2dbde"),
+    (0, 119, "c02dbca30d14fc92666714ad0d070ff9f53e4c1ce2fe1b9fe9ea0cbb567f82be"),
+    (1, 119, "8a7bd0732ed6a28ce75f6dabc90e1613"),
+    (2, 119, "23e398ff2bac815aa1bbb57ca2a669c841872919"),
+    (3, 119, "ee971065aaa017e0632a8ca6c77bb3bf8b1dfc56"),
+    (4, 119, "31eba51c313a5c08226adf18d4a359cfdfd8d2e816b13f4af952f7ea6584dcfb"),
+    (5, 119, "130396a75cb483f2eee8c56d8a668bb3d2641f5243212c0bee2bd33da096ad9eb8179fe18f9eaacf76e09fae9de4c3f14ba13341e345be05bf76c182cc3468cb"),
+    (0, 128, "3ac477e27353f9019b81694afe60c8049403784f91a58288428ea318bfa82809"),
+    (1, 128, "e510683b3f5ffe4093d021808bc6ff70"),
+    (2, 128, "8dfdfb32b2ed5cb41a73478b4fd60cc5b4648b15"),
+    (3, 128, "ad5b3fdbcb526778c2839d2f151ea753995e26a0"),
+    (4, 128, "6836cf13bac400e9105071cd6af47084dfacad4e5e302c94bfed24e013afb73e"),
+    (5, 128, "b73d1929aa615934e61a871596b3f3b33359f42b8175602e89f7e06e5f658a243667807ed300314b95cacdd579f3e33abdfbe351909519a846d465c59582f321"),
+];
+
+pub fn h_vectors() {
+    let k = sym::choose("vector", VECTORS.len());
+    let (a, n, want) = VECTORS[k];
+    let data: Vec<u8> = if n == 3 { b"abc".to_vec() } else { vec![b'a'; n] };
+    let text = String::from_utf8(data.clone()).unwrap();
+    let via_str = alg_of(a).hash_str(&text);
+    let mut r = Sched::new(&data, 0, false);
+    let via_file = alg_of(a).hash_file(&mut r);
+    sym::cover("vector", true);
+    sym::check("C13/vector-str", matches!(via_str, Ok(ref h) if h == want));
+    sym::check("C13/vector-file", matches!(via_file, Ok(ref h) if h == want));
+}
